@@ -297,6 +297,10 @@ def same_value(x, y):
     return type(x) is type(y) and x == y
 
 
+def same_image(x, dense):
+    return rep_problem(x) is None and differs(raw_image(x), dense, True) is None
+
+
 def scribble(x):
     if x.__class__ is SA:
         for r in x.rows: scribble(r)
@@ -415,7 +419,7 @@ def core_binop(ctx, mode, op, lspec, rspec):
         if is_sparse(r):
             # the result must own its storage: scribble over it and look at the operands again
             scribble(r)
-            if differs(raw_image(L), a0, True) or (not alias and is_sparse(R) and differs(raw_image(R), b0, True)):
+            if not same_image(L, a0) or (not alias and is_sparse(R) and not same_image(R, b0)):
                 ctx.fail(f'{site}|{region}|result-aliases-operand', f'{a0.tolist()} {op} {b0.tolist()} ({mode}): result shares storage with an operand')
     if nz: nontriv(ctx, key)
 
@@ -459,8 +463,10 @@ def vals_strategy(dc, n):
         if dc == 'b':
             strat = st.one_of(full, st.just([False] * n), st.just([True] * n))
         else:
+            cancel = [st.lists(st.sampled_from([a, -a, a, -a, 0 * a]), min_size=n, max_size=n)
+                      for a in ((1, 2) if dc == 'i' else (1.0, 2.5, 2.0 ** 20))]
             strat = st.one_of(full, full, st.lists(st.sampled_from(NZ[dc]), min_size=n, max_size=n),
-                              st.just([ALPHA[dc][0]] * n))
+                              st.just([ALPHA[dc][0]] * n), *cancel)
         _strat_cache[key] = strat
     return strat
 
@@ -1673,15 +1679,37 @@ def exhaustive(_ch, ctx):
     ctx.cur_name = name0
 
 
+def _required():
+    c = []
+    for mode in MODES:
+        for op in (ARITH + LOGIC if mode.startswith('inp') else ARITH + CMP + LOGIC):
+            c.append(f'op:{mode}:{op}')
+    for lk in SPARSE:
+        c.append(f'kinds:{lk}:self')
+        for rk in R_KINDS: c.append(f'kinds:{lk}:{rk}')
+    c += ['inplace:grow', 'div:raised', 'rejected:ValueError', 'skip:numpy-TypeError', 'ro:rejected']
+    c += [f'h:{a}' for a in sorted(set(H_ACTIONS))]
+    for lk in SPARSE:
+        for m in METHODS: c.append(f'red:{lk}:{m}:None:0')
+    for f in ('int', 'slice', 'open', 'list', 'ndint', 'mask', 'ndmask', 'slvmask'):
+        c += [f'get:SV:{f}', f'set:SV:{f}', f'get:SA:{f}', f'set:SA:{f}']
+    c += ['get:SA:T:int,int', 'get:SA:T:open,int', 'get:SA:T:list,list', 'get:SA:ndmask2', 'get:SA:samask2',
+          'set:SA:T:int,int', 'set:SA:T:open,int', 'set:SA:T:list,list', 'set:SA:ndmask2', 'set:SA:samask2']
+    return c
+
+
+REQUIRED_CELLS = {'quick': _required(), 'thorough': _required()}
+
 PROPS = {
-    'binop': (prop_binop, 60000, 1500000),
-    'getitem': (prop_getitem, 20000, 400000),
-    'setitem': (prop_setitem, 30000, 600000),
-    'reduce': (prop_reduce, 12000, 200000),
-    'construct': (prop_construct, 8000, 100000),
-    'observe': (prop_observe, 12000, 200000),
-    'mutate': (prop_mutate, 6000, 100000),
-    'readonly': (prop_readonly, 3000, 30000),
-    'history': (prop_history, 3000, 100000),
     'exhaustive': (exhaustive, 1, 1, {'exhaustive': True}),
+    'binop': (prop_binop, 40000, 800000),
+    'getitem': (prop_getitem, 12000, 150000),
+    'setitem': (prop_setitem, 20000, 300000),
+    'reduce': (prop_reduce, 6000, 80000),
+    'construct': (prop_construct, 5000, 50000),
+    'observe': (prop_observe, 8000, 80000),
+    'mutate': (prop_mutate, 4000, 50000),
+    'readonly': (prop_readonly, 2000, 15000),
+    'history': (prop_history, 2500, 40000),
 }
+WALL = {'quick': 900, 'thorough': 3300}
